@@ -79,7 +79,7 @@ def attribute(u, r):
         if tags:
             f.props = list(tags)
         elif panicky and 'C14' in fprops:
-            f.props = ['C14']
+            f.props = ['C14'] + [p for p in (getattr(fn, 'panic_props', None) or []) if p != 'C14']
         else:
             # non-panic obligations (postconditions, invariants, asserts) speak about the function's
             # functional properties; C14 is only implicated by panic-type obligations or explicit tags
